@@ -93,6 +93,10 @@ func genScriptCase(r *Rng, feat map[string]int) scriptCase {
 		opts.MinifySyntax = true
 		desc = append(desc, "minify-syntax")
 	}
+	// `with` and sloppy function-in-block are exercised in separate programs, and `with` never
+	// together with keep-names (their interactions are recorded findings, replayed from the corpus)
+	g.noWith = r.Bool() || opts.KeepNames || opts.MinifyIdentifiers // with + minify: recorded finding (pinned nested names are not reserved)
+	g.noFnInBlock = !g.noWith
 	sc.src, sc.top = g.script(r.Range(3, 7))
 	sc.opts = opts
 	sc.optDesc = strings.Join(desc, " ")
@@ -113,6 +117,24 @@ func fixedScriptCorpus() []scriptCase {
 		{kind: "script", scenario: "annexb-function-in-block-shadows-parameter",
 			src:  progPrelude + globalsPrelude() + "function fn1(t) { { function t() {} } return typeof t }\n$p(\"r\", fn1(\"s\"));\n",
 			opts: api.TransformOptions{Loader: api.LoaderJS, LogLevel: api.LogLevelSilent}, optDesc: "(defaults)"},
+		{kind: "script", scenario: "annexb-function-in-block-overwrites-catch-parameter",
+			src:  progPrelude + globalsPrelude() + "try { throw \"p\"; } catch (y) { { function y() {} } $p(\"r\", typeof y); }\n",
+			opts: api.TransformOptions{Loader: api.LoaderJS, LogLevel: api.LogLevelSilent}, optDesc: "(defaults)"},
+		{kind: "script", scenario: "function-in-block-referenced-in-with-declared-twice",
+			src:  progPrelude + globalsPrelude() + "{\n  function r1() {}\n  with ({}) { $p(\"r\", typeof r1); }\n}\n",
+			opts: api.TransformOptions{Loader: api.LoaderJS, LogLevel: api.LogLevelSilent}, optDesc: "(defaults)"},
+		{kind: "script", scenario: "function-in-block-inside-with-redeclares-lexical",
+			src:  progPrelude + globalsPrelude() + "class y1 {}\nwith ({}) { { function y1() {} } }\n$p(\"r\", typeof y1);\n",
+			opts: api.TransformOptions{Loader: api.LoaderJS, LogLevel: api.LogLevelSilent}, optDesc: "(defaults)"},
+		{kind: "script", scenario: "strict-class-method-block-function-hoisted-as-sloppy",
+			src:  progPrelude + globalsPrelude() + "class x1 { m() { { function t1() {} } return typeof t1; } }\n$p(\"r\", new x1().m());\n",
+			opts: api.TransformOptions{Loader: api.LoaderJS, LogLevel: api.LogLevelSilent}, optDesc: "(defaults)"},
+		{kind: "script", scenario: "with-pinned-nested-name-captured-by-minified-name",
+			src:  progPrelude + globalsPrelude() + "(function y() {\n  with ({}) { y; }\n  try { throw 1; } catch (x3) { $p(\"r\", typeof y, \"yyyyyyyyyyyyyyyyyyyyyyyyyyyyyyyyyyyyyyyyyyyyyyyyyyyyyyyyyyyyyyyyyyyyyyyyyyyyyyyyyyyyyyyyyyyyyyyyyyyyyyyyyyyyyyyy\"); }\n})();\n",
+			opts: api.TransformOptions{Loader: api.LoaderJS, MinifyIdentifiers: true, LogLevel: api.LogLevelSilent}, optDesc: "minify-identifiers"},
+		{kind: "script", scenario: "with-object-captures-minified-keep-names-helper",
+			src:  progPrelude + globalsPrelude() + "with ({ a: 1, b: 1, c: 1, d: 1, e: 1, f: 1, g: 1, h: 1, i: 1, j: 1, k: 1, l: 1, m: 1, n: 1, o: 1, p: 1, q: 1, r: 1, s: 1, t: 1, u: 1, v: 1, w: 1, x: 1, y: 1, z: 1 }) {\n  class K {}\n  $p(\"r\", typeof K);\n}\n",
+			opts: api.TransformOptions{Loader: api.LoaderJS, KeepNames: true, MinifyIdentifiers: true, LogLevel: api.LogLevelSilent}, optDesc: "keep-names minify-identifiers"},
 	}
 }
 
@@ -260,6 +282,7 @@ const fmt = (v, d) => {
 };
 globalThis.$p = function () { const a = []; for (let i = 0; i < arguments.length; i++) a.push(fmt(arguments[i])); log.push(a.join(" ")); return arguments[arguments.length - 1]; };
 globalThis.$v = function (x) { return typeof x === "function" ? (x.$id || "fn") : x; };
+globalThis.$s = function (f, id) { try { f.$id = id; } catch (e) {} };
 globalThis.$q = function (tag, f) { let v; try { v = f(); } catch (e) { v = "!" + (e && e.constructor && e.constructor.name); } return $p(tag, v); };
 for (const g of jobs.globals) globalThis[g] = "g:" + g;
 const out = [];
